@@ -14,6 +14,9 @@ def c12_histories(rng, tier):
     vals = [v for v in vals if -(2 ** 63) <= v <= 2 ** 63 - 1]
     for i in range(0, len(vals), 20000):
         hs.append(["begin"] + ["chk %d" % v for v in vals[i:i + 20000]])
+    # 1b. independence under concurrency: a Delete on one tree waiting for a cursor's leaf must not
+    #     hold up operations on another tree of the same type (real goroutines; `indep`)
+    hs.append(["begin"] + ["indep %s" % ty for ty in genseq.TYPES])
     # 2. the six constructors: around zero, around small powers (valid ones are
     #    constructed), and invalid orders next to every large power of two
     for ty in genseq.TYPES:
